@@ -14,7 +14,8 @@ package main
 //             a short while); the covert is a sink that starts reading at once, after a delay, or only when
 //             the client is gone, and reads in sips (256 B … 32 KiB, optional pause), with a 4 KiB or the
 //             default SO_RCVBUF;
-//   download  the client sends a short request; the covert answers — at once or after 100 ms — with 48–384 KiB
+//   download  the client sends a short request; the covert answers — at once, or 250 ms after the client's
+//             transport has put the last byte belonging to the request on the wire — with 48–384 KiB
 //             and ends its stream (Close at once / CloseWrite and wait); the client starts reading at once,
 //             after a delay, or only when the covert is gone, in sips, with a 4 KiB or the default SO_RCVBUF.
 //
@@ -63,7 +64,8 @@ type c04pScn struct {
 	early  int    // upload: bytes that share the first segment with the flight
 	chunk  int    // sender's write size
 	end    string // close | closewrite | linger
-	think  int    // download: milliseconds the covert waits between the request and its answer
+	think  int    // download: 0 = the covert answers as soon as it has the request; > 0 = it waits until the client's
+	// transport has finished writing the request (padding included) and then that many milliseconds
 	pace   c04pPace
 	dseed  uint64
 	origin string
@@ -151,6 +153,7 @@ type c04pJob struct {
 	reqLen   int           // download: bytes to wait for before answering
 	reply    []byte
 	gone     chan struct{} // download: closed when the covert has ended its stream
+	reqOut   chan struct{} // download: closed when the client's Write of the request has returned
 	got      []byte
 	endErr   error
 	wrote    int
@@ -210,6 +213,12 @@ func (j *c04pJob) serve(c net.Conn) {
 		return
 	}
 	if j.scn.think > 0 {
+		// not a timing assumption about the client: wait for its Write to have returned, then leave the
+		// station ample time to take those bytes off its socket
+		select {
+		case <-j.reqOut:
+		case <-time.After(c04pPatience):
+		}
 		time.Sleep(time.Duration(j.scn.think) * time.Millisecond)
 	}
 	for off := 0; off < len(j.reply); off += j.scn.chunk {
@@ -316,7 +325,7 @@ func (pw *c04pWorld) run(s *c04pScn) *c04pRes {
 	}
 	reg := pw.regs[s.tr][k]
 	app := c04AppData(s.dseed, s.size)
-	job := &c04pJob{scn: s, peerGone: make(chan struct{}), gone: make(chan struct{}), done: make(chan struct{})}
+	job := &c04pJob{scn: s, peerGone: make(chan struct{}), gone: make(chan struct{}), reqOut: make(chan struct{}), done: make(chan struct{})}
 	req := c04AppData(s.dseed+1, 64)
 	if s.dir == "down" {
 		job.reqLen, job.reply = len(req), app
@@ -359,6 +368,7 @@ func (pw *c04pWorld) run(s *c04pScn) *c04pRes {
 		if err != nil {
 			res.senderErr = "wrap: " + c34ErrKind(err)
 			close(job.peerGone)
+			close(job.reqOut)
 			return
 		}
 		write := func(p []byte) bool {
@@ -382,6 +392,7 @@ func (pw *c04pWorld) run(s *c04pScn) *c04pRes {
 			}
 		}
 		if s.dir == "down" {
+			close(job.reqOut)
 			// paced reading of the reply, until the stream ends
 			clientGot, clientEnd = c04pDrain(c04pDeadliner{wrapped, a}, s.pace, job.gone)
 			return
@@ -561,8 +572,8 @@ func c04pCorpus() []*c04pScn {
 		add(c04pScn{dir: "down", tr: tr, small: true, size: 128 * 1024, end: "close", pace: c04pPace{"peer", 2048, 50}})
 		add(c04pScn{dir: "down", tr: tr, small: true, size: 96 * 1024, end: "closewrite", pace: c04pPace{"delay", 700, 100}})
 		// a covert that takes a moment to answer
-		add(c04pScn{dir: "down", tr: tr, small: true, size: 128 * 1024, end: "close", think: 100, pace: c04pPace{"peer", 32 * 1024, 0}})
-		add(c04pScn{dir: "down", tr: tr, small: false, size: 200000, end: "closewrite", think: 100, pace: c04pPace{"delay", 1024, 20}})
+		add(c04pScn{dir: "down", tr: tr, small: true, size: 128 * 1024, end: "close", think: 250, pace: c04pPace{"peer", 32 * 1024, 0}})
+		add(c04pScn{dir: "down", tr: tr, small: false, size: 200000, end: "closewrite", think: 250, pace: c04pPace{"delay", 1024, 20}})
 	}
 	return l
 }
@@ -577,7 +588,7 @@ func c04pRandom(r *vlib.Rand) *c04pScn {
 	if s.dir == "down" {
 		s.early = 0
 		if r.Chance(1, 2) {
-			s.think = 100
+			s.think = 250
 		}
 	}
 	s.chunk = []int{1024, 4096, 16 * 1024, 32 * 1024, 1 << 20}[r.Intn(5)]
